@@ -21,3 +21,19 @@ Definition chk_scope (c : grp * list (string * list string)) : bool :=
                     | Some dims => str_list_eqb dims (snd o)
                     | None => false
                     end) observed.
+
+(* ... and the shape of every variable: the sizes of the declarations its fully qualified dimension names refer to *)
+Fixpoint sized_eqb (a : list (chars * option nat)) (b : list (string * nat)) : bool :=
+  match a, b with
+  | [], [] => true
+  | (x, Some n) :: r, (y, m) :: s => String.eqb (l2s x) y && Nat.eqb n m && sized_eqb r s
+  | _, _ => false
+  end.
+Definition chk_sized (c : grp * list (string * list (string * nat))) : bool :=
+  let '(tree, observed) := c in
+  let model := vars_sized [] [] tree in
+  Nat.eqb (List.length model) (List.length observed) &&
+  forallb (fun o => match aget (s2l (fst o)) model with
+                    | Some dims => sized_eqb dims (snd o)
+                    | None => false
+                    end) observed.
